@@ -359,6 +359,9 @@ def resolve_sites(facts, body, judge, keep_names=(), keep_dids=(), is_entry=None
     dep = [x for x in sites if x["ok"] and x.get("ctx_dep")]
     if dep and body.kind in ("fn", "assoc_fn") and not str(body.vis).startswith("Public") and not (is_entry and is_entry(body)):
         ctxs = contexts(facts, body, pred=keep_pred(keep_names, keep_dids, atoms=True))
+        if not ctxs:
+            # the helper itself is one of the names the rules mention (it stays a call in the conservative views): splice it anyway
+            ctxs = contexts(facts, body, pred=keep_pred(keep_names, keep_dids, atoms=False))
         for cb in ctxs:
             blocks = set()
             for x in dep:
